@@ -398,7 +398,7 @@ fn eval_axis_node_test(
 
     let mut tested = vec![];
     for node in nodes {
-        if eval_node_test(test, node.clone(), context)? {
+        if eval_node_test(axis, test, node.clone(), context)? {
             tested.push(node);
         }
     }
@@ -450,11 +450,34 @@ fn eval_axis_node_test(
     Ok(nodes)
 }
 
+/// The principal node type of an axis: attribute for the attribute axis, namespace for the
+/// namespace axis, element for every other axis. A name test selects nodes of that type only.
+fn principal_node_type(axis: &expr::AxisSpecifier) -> dom::NodeType {
+    match axis {
+        expr::AxisSpecifier::Abbreviated(v) if v.as_str() == "@" => dom::NodeType::Attribute,
+        expr::AxisSpecifier::Name(expr::AxisName::Attribute) => dom::NodeType::Attribute,
+        _ => dom::NodeType::Element,
+    }
+}
+
 fn eval_node_test(
+    axis: &expr::AxisSpecifier,
     test: &expr::NodeTest,
     node: dom::XmlNode,
     context: &mut model::Context,
 ) -> error::Result<bool> {
+    if let expr::NodeTest::Name(_) = test {
+        let namespace_axis = matches!(axis, expr::AxisSpecifier::Name(expr::AxisName::Namespace));
+        let principal = if namespace_axis {
+            matches!(node, dom::XmlNode::Namespace(_))
+        } else {
+            node.node_type() == principal_node_type(axis)
+        };
+        if !principal {
+            return Ok(false);
+        }
+    }
+
     match test {
         expr::NodeTest::Name(name) => match name {
             expr::NameTest::All => Ok(true),
